@@ -624,8 +624,6 @@ def _direct_desc(rng, kind=None):
     # a few long ones: NumPy rebuilds arrays above a small size over the pickle's own bytes
     n = rng.choice([0, 0, 1, 2, 3, 5])
     ncols = rng.choice([0, 1, 2, 3, 4]) if kind == "D" else 1
-    if rng.random() < 0.02 and ncols and W.np_dtype(dtype).itemsize * ncols >= 4:
-        n = 1100 // (W.np_dtype(dtype).itemsize * ncols) + 1     # just over 1 KiB of samples
     hi = 2 if dtype == "bool" else 8 if kind == "D" else 100
     d = {"kind": kind, "dtype": dtype, "vals": [[rng.randrange(hi) for _ in range(ncols)] for _ in range(n)], "ncols": ncols,
          "pre": rng.choice([0, 0, 1, 3]), "post": rng.choice([0, 0, 2]), "props": _props_desc(rng)}
@@ -667,6 +665,18 @@ def gen_cases(rng, tier):
                       "focus": focus, "methods": ms})
     for i in range(500 if not big else 8000):
         cases.append({"k": "wfmd", "d": _direct_desc(rng), "m": meth()})
+    # one long waveform (just over 1 KiB of samples) per class and copying method
+    for kind, m in zip("ACSD", ["p2", "pdef", "p4", "p3"]) if not big else [(k_, m_) for k_ in "ACSD" for m_ in METHODS]:
+        if True:
+            d = _direct_desc(rng, kind)
+            while d["ncols"] == 0 or W.np_dtype(d["dtype"]).itemsize * d["ncols"] < 4:
+                d = _direct_desc(rng, kind)
+            n = 1100 // (W.np_dtype(d["dtype"]).itemsize * d["ncols"]) + 1
+            hi = 2 if d["dtype"] == "bool" else 8 if kind == "D" else 100
+            d["vals"] = [[rng.randrange(hi) for _ in range(d["ncols"])] for _ in range(n)]
+            if d.get("timing") is not None and d["timing"]["mode"] == 2:
+                d["timing"] = None          # the samples are what matters here; 276 timestamps per snapshot are slow to judge
+            cases.append({"k": "wfmd", "d": d, "m": m})
     for i in range(200 if not big else 3000):
         d = _direct_desc(rng, "D")
         if d["ncols"] == 0:
